@@ -9,6 +9,19 @@ from common import NCPU, VERIF, log, run
 from registry import CRATES
 
 RUSTFLAGS = '--cfg feature="testing"'
+
+
+def rustflags_for(crate):
+    """RUSTFLAGS of the Kani / replay build of a crate.  The global `--cfg feature="testing"` breaks crates
+    whose `testing` feature pulls in optional dependencies (s2n-quic-dc: bach, bolero-generator); such a
+    crate sets "kani_rustflags" in registry.CRATES."""
+    return CRATES[crate].get("kani_rustflags", RUSTFLAGS)
+
+
+def rustflags_env(crate):
+    # an empty RUSTFLAGS variable makes kani-compiler see an empty file-name argument: leave it unset instead
+    f = rustflags_for(crate)
+    return {"RUSTFLAGS": f} if f.strip() else {}
 NAMED = re.compile(r'^"?(C\d\d/[^"]+)"?$')
 
 
@@ -50,6 +63,7 @@ def kani_cmd(crate, flags, harness_names, jobs, timeout_s, export_json, extra=()
         cmd += ["--harness-timeout", "%ds" % timeout_s]
     if export_json:
         cmd += ["--export-json", export_json]
+    cmd += ["--exact"]
     cmd += list(extra)
     for n in harness_names:
         cmd += ["--harness", n]
@@ -127,9 +141,27 @@ def finish(hres):
 
 
 
+def qualified(h):
+    """Fully qualified harness name as Kani prints it (for --exact)."""
+    rel = h.src[len(CRATES[h.crate]["dir"]) + len("/src/"):]
+    rel = rel[:-3] if rel.endswith(".rs") else rel
+    parts = [p for p in rel.split("/") if p]
+    if parts and parts[-1] in ("mod", "lib"):
+        parts = parts[:-1]
+    modname = "aws_s2n_quic_verif_" + re.sub(r"\W", "_", os.path.splitext(os.path.basename(h.file))[0])
+    return "::".join(parts + [modname, h.name])
+
+
 def run_group(scratch, crate, flags, harnesses, jobs, outdir):
-    names = [h.name for h in harnesses]
-    tmo = max(h.timeout for h in harnesses)
+    names = [qualified(h) for h in harnesses]
+    # harness timeouts are calibrated on an idle 16-core machine: stretch them when the machine is busy
+    # (other checks, builds), so that load alone never turns a discharged obligation into UNDECIDED
+    try:
+        load = os.getloadavg()[0] / float(NCPU)
+    except OSError:
+        load = 0.0
+    scale = float(os.environ.get("VERIF_TIMEOUT_SCALE", "1.5")) * max(1.0, load)
+    tmo = int(max(h.timeout for h in harnesses) * scale)
     mem = max(h.mem for h in harnesses)
     tag = "%s-%s-%d" % (crate, "_".join(flags) or "std", os.getpid())
     export = os.path.join(outdir, "kani-%s.json" % tag)
@@ -140,7 +172,7 @@ def run_group(scratch, crate, flags, harnesses, jobs, outdir):
     log("kani[%s]: %d harnesses, -j %d, timeout %ds" % (tag, len(names), jobs, tmo))
     # outer limit: build (cold ~3 min) + ceil(n/jobs) rounds of the per-harness timeout
     outer = 900 + tmo * (1 + (len(names) + jobs - 1) // jobs)
-    rc, out, wall = run(cmd, cwd=cwd, env={"RUSTFLAGS": RUSTFLAGS}, timeout=outer, mem_gb=mem)
+    rc, out, wall = run(cmd, cwd=cwd, env=rustflags_env(crate), timeout=outer, mem_gb=mem)
     open(os.path.join(outdir, "kani-%s.log" % tag), "w").write(out)
     results = {h.name: HarnessResult(h) for h in harnesses}
     data = None
@@ -231,10 +263,10 @@ VEC_RE = re.compile(r"vec!\[([0-9,\s]*)\]")
 def concrete_playback(scratch, h, outdir, prefer=()):
     """Re-runs one failing harness with -Z concrete-playback and returns the list of byte vectors
     (one per kani::any() call, in call order) or None."""
-    cmd = kani_cmd(h.crate, h.flags, [h.name], 0, h.timeout, None,
+    cmd = kani_cmd(h.crate, h.flags, [qualified(h)], 0, h.timeout, None,
                    extra=["-Z", "concrete-playback", "--concrete-playback", "print"])
     cwd = os.path.join(scratch.repo, CRATES[h.crate]["dir"])
-    rc, out, wall = run(cmd, cwd=cwd, env={"RUSTFLAGS": RUSTFLAGS}, timeout=h.timeout * 2 + 600, mem_gb=h.mem)
+    rc, out, wall = run(cmd, cwd=cwd, env=rustflags_env(h.crate), timeout=h.timeout * 2 + 600, mem_gb=h.mem)
     open(os.path.join(outdir, "playback-%s.log" % h.name), "w").write(out)
     tests = []
     for blk in out.split("Concrete playback unit test for")[1:]:
